@@ -54,22 +54,36 @@ def inFootprint (fp : List (String × String)) (e : Entry) : Bool :=
 def showEntries (es : List Entry) : String :=
   String.intercalate ", " ((es.take 6).map Entry.show) ++ (if es.length > 6 then s!" … ({es.length} components)" else "")
 
-/-- the components the two recorded findings move (see known_findings.json): they are looked at last, so that any other
-    change in the same run decides the signature -/
+/-- the components the recorded findings move (see known_findings.json): they are looked at last, so that any other
+    change in the same run decides the signature.  For a cached CapacityBuffer virtual pod these are the two parts the
+    scheduler is known to decorate in place and the digest of the whole pod (which moves with any of its parts) -/
 def knownLeakComponent (e : Entry) : Bool :=
-  e.sec == "input" && (e.fld == "pod.topologySpreadConstraints" || e.fld == "pod.preferredNodeAffinity.order")
+  (e.sec == "input" && (e.fld == "pod.topologySpreadConstraints" || e.fld == "pod.preferredNodeAffinity.order")) ||
+  (e.sec == "virtualpods" && (e.fld == "pod" || e.fld == "pod.topologySpreadConstraints" || e.fld == "pod.preferredNodeAffinity.order"))
 
-/-- the offender that classifies a violation: the first one that is not a recorded finding's component, if any -/
+/-- the digest of a whole cached pod: says that the pod moved, not what moved in it -/
+def wholePod (e : Entry) : Bool := e.sec == "virtualpods" && e.fld == "pod"
+
+/-- the offender that classifies a violation: the first one that is not a recorded finding's component, if any; otherwise
+    the most specific recorded component -/
 def pickOffender (es : List Entry) : Option Entry :=
   match es.find? (fun e => !knownLeakComponent e) with
   | some e => some e
-  | none => es.head?
+  | none =>
+    match es.find? (fun e => !wholePod e) with
+    | some e => some e
+    | none => es.head?
 
 /-- signature of a violation: which kind of component moved -/
 def sigOf (pfx : String) (e : Entry) : String :=
   -- default constraints stamped onto a shared pod that declared none ("0:<digest>" before) vs. any other change
   if e.sec == "input" && e.fld == "pod.topologySpreadConstraints" then
     s!"{pfx}:input:pod.topologySpreadConstraints:{if e.dig.startsWith "0:" then "stamped-on-empty" else "changed"}"
+  else
+  -- a cached CapacityBuffer virtual pod: the same class whether a simulation or a provisioning pass did it (no prefix)
+  if e.sec == "virtualpods" && e.fld == "pod.topologySpreadConstraints" then
+    s!"virtualpods:pod.topologySpreadConstraints:{if e.dig.startsWith "0:" then "stamped-on-empty" else "changed"}"
+  else if e.sec == "virtualpods" && e.obj.startsWith "pod:" then s!"virtualpods:{e.fld}"
   else
   if e.sec == "api" then s!"{pfx}:api:{(e.obj.splitOn "/").headD ""}"
   else if e.sec == "provider" then s!"{pfx}:provider:{if e.fld.startsWith "Offerings" then "Offerings" else e.fld}"
@@ -145,6 +159,7 @@ def provision (_inp impl : Json) : Except String Resp := do
   let mut allowed := true
   let mut why := ""
   let mut sig := ""
+  let mut sigKnownOnly := false
   let mut k := 0
   for p in passes do
     let b ← natF p "before"
@@ -156,21 +171,31 @@ def provision (_inp impl : Json) : Except String Resp := do
     let o : Outcome := { existing := ← listOf existingPlacement (← fld p "existing"),
                          claims := ← listOf claimPlacement (← fld p "claims"),
                          errors := ← strList (← fld p "errors") }
-    if specOk && !provisioningOk now ignored o run then
-      specOk := false
+    -- every violating pass is judged; a violation that is not a recorded finding's component decides the report
+    if !provisioningOk now ignored o run && (specOk || sigKnownOnly) then
+      let mut w := ""
+      let mut sg := ""
+      let mut knownOnly := false
       if run.writes != 0 then
-        why := s!"pass {k} ({cls}): Provisioner.Schedule made {run.writes} write call(s) on the API client"
-        sig := "prov:client-writes"
-      else match provisioningOffender run with
+        w := s!"pass {k} ({cls}): Provisioner.Schedule made {run.writes} write call(s) on the API client"
+        sg := "prov:client-writes"
+      else
+        let ch := (changed run.before run.after).filter (fun e => !provisioningMayChange e)
+        match pickOffender ch with
         | some e =>
-          let ch := (changed run.before run.after).filter (fun e => !provisioningMayChange e)
-          why := s!"pass {k} ({cls}): the pass changed more than nominations and pod bookkeeping: {showEntries ch}"
-          sig := sigOf "prov" e
+          w := s!"pass {k} ({cls}): the pass changed more than nominations and pod bookkeeping: {showEntries ch}"
+          sg := sigOf "prov" e
+          knownOnly := knownLeakComponent e
         | none =>
           let dn := (run.valsBefore.nodes.zip run.valsAfter.nodes).filter (fun x => x.1 != x.2)
           let dp := (run.valsBefore.pods.zip run.valsAfter.pods).filter (fun x => x.1 != x.2)
-          why := s!"pass {k} ({cls}): nominations / deletion marks / pod bookkeeping moved outside the frame of a provisioning pass (outcome: placed on {o.existing.map (·.providerID)}, errors {o.errors}, refused {ignored}); nodes before→after {repr (dn.take 3)}; pods before→after {repr (dp.take 3)}"
-          sig := "prov:values"
+          w := s!"pass {k} ({cls}): nominations / deletion marks / pod bookkeeping moved outside the frame of a provisioning pass (outcome: placed on {o.existing.map (·.providerID)}, errors {o.errors}, refused {ignored}); nodes before→after {repr (dn.take 3)}; pods before→after {repr (dp.take 3)}"
+          sg := "prov:values"
+      if specOk || !knownOnly then
+        why := w
+        sig := sg
+        sigKnownOnly := knownOnly
+      specOk := false
     let outside := (changed run.before run.after).filter (fun e => !inFootprint fp e)
     -- a pass that returned an error produced no results: only the refusal records of GetPendingPods can have moved
     let predicted :=
